@@ -491,13 +491,13 @@ def check_C05(chk: Check, replay: str | None) -> None:
 
 
 # --------------------------------------------------------------------------- probes (C06, C10)
-def _gen_inputs(chk: Check, per_class: int, seed_off: int, jobs: int = 16, variants: bool = False):
+def _gen_inputs(chk: Check, per_class: int, seed_off: int, jobs: int = 16, variants: bool = False, edges: int = 0):
     classes = project.all_entity_classes()
     n = len(classes)
     K = 16
     slices = [(i * n // K, (i + 1) * n // K) for i in range(K)]
     in_args = [(os.path.join(chk.scratch, f"pin{i}.json"), slices[i], per_class,
-                chk.seed + seed_off, True, variants) for i in range(K)]
+                chk.seed + seed_off, True, variants, edges) for i in range(K)]
     ins = pmap(codec_driver.gen_probe_inputs, in_args)
     encoded = encode_with_spec(chk, [i["path"] for i in ins], jobs)
     return n, ins, encoded
@@ -585,15 +585,17 @@ def check_C10(chk: Check, replay: str | None) -> None:
         "(reads <= 2*len+2) and a step budget; wall-clock time and memory are not measured"]
     chk.cov["rule"] = ("a case is (class, corrupted input): role-directed single/double overwrites, "
                        "insertions, deletions of a valid encoding (read boundaries of kio's own decode are "
-                       "the roles: length prefixes, varint continuation bits, tags, markers) and random byte "
-                       "strings; distinct = distinct (class, input bytes)")
+                       "the roles: length prefixes, varint continuation bits, tags, markers), random byte "
+                       "strings, and specification-encoded messages whose fixed-width fields hold wire values at "
+                       "and beyond the edge of the library's value types (durations, timestamps, error codes, "
+                       "non-finite floats); distinct = distinct (class, input bytes)")
     if replay:
         raise Machinery("replay: re-run the check with the same VERIF_SEED")
     thorough = chk.tier == "thorough"
     if thorough:
         model_check_codec(chk, "MC_Codec_thorough.cfg")
     model_check_machine(chk, thorough)
-    n, ins, encoded = _gen_inputs(chk, 6 if thorough else 2, 17)
+    n, ins, encoded = _gen_inputs(chk, 6 if thorough else 2, 17, edges=9 if thorough else 2)
     args = [(ins[i]["path"], encoded[ins[i]["path"]], os.path.join(chk.scratch, f"mu{i}.json"),
              chk.seed + 19, 80 if thorough else 20, 4) for i in range(len(ins))]
     infos = pmap(codec_driver.gen_mut_shard, args)
